@@ -57,7 +57,130 @@ class PassStmts(ast.NodeTransformer):
     visit_While = visit_For
 
 
-T = {"invert-if": InvertIf, "add-logging": AddLogging, "pass-stmts": PassStmts}[kind]
+class NestAnd(ast.NodeTransformer):
+    """if a and b: X  (no else)  ->  if a: if b: X"""
+
+    def visit_If(self, node):
+        global count
+        self.generic_visit(node)
+        t = node.test
+        if not node.orelse and isinstance(t, ast.BoolOp) and isinstance(t.op, ast.And) and len(t.values) >= 2:
+            count += 1
+            rest = t.values[1] if len(t.values) == 2 else ast.BoolOp(op=ast.And(), values=t.values[1:])
+            return ast.If(test=t.values[0], body=[ast.If(test=rest, body=node.body, orelse=[])], orelse=[])
+        return node
+
+
+class MergeAnd(ast.NodeTransformer):
+    """if a: if b: X  (no else on either, nothing else in the outer body)  ->  if a and b: X"""
+
+    def visit_If(self, node):
+        global count
+        self.generic_visit(node)
+        if (
+            not node.orelse and len(node.body) == 1 and isinstance(node.body[0], ast.If) and not node.body[0].orelse
+            and not any(isinstance(x, ast.NamedExpr) for x in ast.walk(node.test))
+        ):
+            inner = node.body[0]
+            count += 1
+            vals = []
+            for t in (node.test, inner.test):
+                vals.extend(t.values if isinstance(t, ast.BoolOp) and isinstance(t.op, ast.And) else [t])
+            return ast.If(test=ast.BoolOp(op=ast.And(), values=vals), body=inner.body, orelse=[])
+        return node
+
+
+class ExpandAug(ast.NodeTransformer):
+    """x += e -> x = x + e  for plain names and self.<attr> targets"""
+
+    def visit_AugAssign(self, node):
+        global count
+        self.generic_visit(node)
+        t = node.target
+        simple = isinstance(t, ast.Name) or (isinstance(t, ast.Attribute) and isinstance(t.value, ast.Name))
+        numeric = (isinstance(node.value, ast.Constant) and isinstance(node.value.value, int)) or (
+            isinstance(node.value, ast.Call) and isinstance(node.value.func, ast.Name) and node.value.func.id == 'len')
+        if simple and isinstance(node.op, (ast.Add, ast.Sub)) and numeric:
+            count += 1
+            load = ast.parse(ast.unparse(t)).body[0].value
+            return ast.Assign(targets=[t], value=ast.BinOp(left=load, op=node.op, right=node.value), lineno=node.lineno)
+        return node
+
+
+def _priv(name):
+    return isinstance(name, str) and name.startswith("_") and not (name.startswith("__") and name.endswith("__"))
+
+
+def _private_defined(dest_root):
+    """private names the package itself defines as attributes of self / methods / functions"""
+    names = set()
+    for root, _, files in os.walk(os.path.join(dest_root, "parglare")):
+        for fn in files:
+            if fn.endswith(".py"):
+                tree = ast.parse(open(os.path.join(root, fn)).read())
+                for n in ast.walk(tree):
+                    if isinstance(n, ast.Attribute) and isinstance(n.ctx, ast.Store) and _priv(n.attr):
+                        names.add(n.attr)
+                    elif isinstance(n, (ast.FunctionDef, ast.AsyncFunctionDef)) and _priv(n.name):
+                        names.add(n.name)
+    # names also used as keyword arguments / parameters or module-level imports are left alone
+    keep = set()
+    for root, _, files in os.walk(os.path.join(dest_root, "parglare")):
+        for fn in files:
+            if fn.endswith(".py"):
+                tree = ast.parse(open(os.path.join(root, fn)).read())
+                for n in ast.walk(tree):
+                    if isinstance(n, ast.keyword) and n.arg in names:
+                        keep.add(n.arg)
+                    elif isinstance(n, ast.arg) and n.arg in names:
+                        keep.add(n.arg)
+                    elif isinstance(n, ast.Name) and n.id in names:
+                        keep.add(n.id)  # module-level private functions called by bare name
+                    elif isinstance(n, ast.alias) and (n.asname or n.name) in names:
+                        keep.add(n.asname or n.name)
+    return names - keep
+
+
+class RenamePrivate(ast.NodeTransformer):
+    names = set()
+
+    def visit_Attribute(self, node):
+        global count
+        self.generic_visit(node)
+        if node.attr in self.names:
+            node.attr = node.attr + "_v2"
+            count += 1
+        return node
+
+    def visit_FunctionDef(self, node):
+        self.generic_visit(node)
+        if node.name in self.names:
+            node.name = node.name + "_v2"
+        return node
+
+    def visit_Call(self, node):
+        self.generic_visit(node)
+        if (
+            isinstance(node.func, ast.Name) and node.func.id in ("hasattr", "getattr", "setattr", "delattr")
+            and len(node.args) >= 2 and isinstance(node.args[1], ast.Constant) and node.args[1].value in self.names
+        ):
+            node.args[1] = ast.Constant(value=node.args[1].value + "_v2")
+        return node
+
+    def visit_Assign(self, node):
+        self.generic_visit(node)
+        if any(isinstance(t, ast.Name) and t.id == "__slots__" for t in node.targets):
+            for c in ast.walk(node.value):
+                if isinstance(c, ast.Constant) and c.value in self.names:
+                    c.value = c.value + "_v2"
+        return node
+
+
+if kind == "rename-private":
+    RenamePrivate.names = _private_defined(dest)
+
+T = {"rename-private": RenamePrivate, "invert-if": InvertIf, "add-logging": AddLogging, "pass-stmts": PassStmts, "nest-and": NestAnd,
+     "merge-and": MergeAnd, "expand-aug": ExpandAug}[kind]
 for root, _, files in os.walk(os.path.join(dest, "parglare")):
     for fn in files:
         if fn.endswith(".py"):
